@@ -4,15 +4,8 @@ import os
 
 VERIF = os.path.dirname(os.path.dirname(os.path.abspath(__file__)))
 
-CHECKS = {}   # pid -> dict(text, note, technique, design_ref, category)
-NOT_APPLICABLE = {}
-
-
-def check(pid, text, note, technique, design_ref, category='model_checking'):
-    CHECKS[pid] = dict(text=text, note=note, technique=technique, design_ref=design_ref, category=category)
-
-
-from .manifest_table import *  # noqa  (fills CHECKS / NOT_APPLICABLE)
+from .manifest_reg import CHECKS, NOT_APPLICABLE
+from . import manifest_table  # noqa  (fills CHECKS / NOT_APPLICABLE)
 
 
 def main():
